@@ -25,14 +25,14 @@ theorem eval_case (X : Ctx p q) {scrut : Fun.Term} {ta : Fun.Tys} {cs : Fun.Clau
     (hc : Compiled q n (.case scrut ta cs cty) c s)
     (he : EnvRel (GP p) q n (fv (.case scrut ta cs cty)) env ρ0) (hr : CRel (GP p) q n k c ρ0)
     (hbd : BoundOn (tfvStmt s []) ρ0) (hag : AgreeOn (tfvStmt s []) ρ0 ρ) :
-    Chunk p q (R p q) true (.eval (.case scrut ta cs cty) env k) ⟨s, ρ, out, n⟩ := by
+    Chunk p q (R p q) true true (funSize (.case scrut ta cs cty)) (.eval (.case scrut ta cs cty) env k) ⟨s, ρ, out, n⟩ := by
   simp only [good, Bool.and_eq_true] at hg
   obtain ⟨⟨⟨hgs, hncs⟩, hgc⟩, hnct⟩ := hg
   obtain ⟨st, st', hcwc, hst, htn, hcn⟩ := hc
   rw [cwc_case] at hcwc
   have f1 : FSteps p (.eval (.case scrut ta cs cty) env k)
       (.eval scrut env (.caseF cs env :: k)) [] 1 := .one rfl
-  refine Chunk.prefix f1 (.refl _) rfl (fun _ => Nat.le_refl _) ?_
+  refine Chunk.prefix f1 (.refl _) rfl (fun _ => Nat.le_refl _) (fun h => .inr h) ?_
   have hnames : ∀ y ∈ clausesNames cs, y ∈ binderNamesClauses cs :=
     fun y hy => clausesNames_binder cs y hy
   refine guard_sim X (fv (.case scrut ta cs cty)) hcwc hnct
@@ -85,7 +85,7 @@ theorem eval_case (X : Ctx p q) {scrut : Fun.Term} {ta : Fun.Tys} {cs : Fun.Clau
           (.refl _ _)
         intro b hb _
         exact hyg1 b hb
-      refine .inr ⟨0, _, _, [], 0, _, .refl _, .inl ⟨rfl, rfl⟩, (fun h => by cases h), .refl _,
+      refine .inr ⟨0, _, _, [], 0, _, .refl _, .inl ⟨rfl, rfl⟩, (fun h => by cases h), (fun _ => .inr (by simp only [msize, funSize]; omega)), .refl _,
         by simp, ?_⟩
       exact SRel.eval (ρ0 := ρp) hgs
         ⟨st2, st', hcore, hst, tns, consNames_xcase hcc cnames hcn1 _⟩
